@@ -381,8 +381,6 @@ def _check_item(item, key, src, clause_prefix=""):
         raise Fail("C20.record", "item %r holds a %s, not a circular record" % (key, type(rec).__name__))
     if rec.id != key:
         raise Fail("C20.record", "record of item %r has id %r" % (key, rec.id), key, rec.id)
-    if item.record is not rec:
-        raise Fail("C20.record", "item.record is not the entity's record for %r" % (key,))
     if str(rec.seq).upper() != pm["seq"]:
         raise Fail("C20.record", "item %r holds another plasmid's sequence (expected %s)" % (key, src), kernel.digest_of(pm["seq"])[:12], kernel.digest_of(str(rec.seq).upper())[:12])
     if rec.annotations.get("topology", "circular").lower() != "circular":
